@@ -103,7 +103,12 @@ func (self AnalyzedFloatLiteralExpression) String() string {
 	}
 
 	// The lexer knows no exponent notation: print all digits.
-	return strconv.FormatFloat(self.Value, 'f', -1, 64)
+	digits := strconv.FormatFloat(self.Value, 'f', -1, 64)
+	if !strings.Contains(digits, ".") {
+		// Without a fraction the literal would lex as an integer.
+		digits += ".0"
+	}
+	return digits
 }
 func (self AnalyzedFloatLiteralExpression) Type() Type     { return NewFloatType(self.Range) }
 func (self AnalyzedFloatLiteralExpression) Constant() bool { return true }
